@@ -167,6 +167,26 @@ func inferSpec(fd *ast.FuncDecl, file string, caller *FuncSpec) (FuncSpec, bool)
 	return sp, true
 }
 
+// A helper found by autoHelpers is emitted into the namespace of the group that needed it. A second group with ANOTHER namespace
+// that translates the same caller (a second model of the same Go function, e.g. GenJwks / GenKeySetC02) needs its own copy:
+// autoNS remembers where each auto-translated helper has been emitted, curNS is the namespace being generated.
+var autoNS = map[string][]string{}
+var curNS string
+
+// autoElsewhere: the name was auto-translated, but only into namespaces other than the current one
+func autoElsewhere(name string) bool {
+	nss, ok := autoNS[name]
+	if !ok {
+		return false
+	}
+	for _, n := range nss {
+		if n == curNS {
+			return false
+		}
+	}
+	return true
+}
+
 var autoCallRe = regexp.MustCompile(`\(([A-Za-z_]\w*) now\b`)
 
 // autoHelpers: Lean text of the helpers that the translation `src` of spec `sp` refers to but that nobody defines:
@@ -178,7 +198,7 @@ func (g *genCtx) autoHelpers(sp *FuncSpec, src string, depth int) string {
 	var out strings.Builder
 	for _, m := range autoCallRe.FindAllStringSubmatch(src, -1) {
 		name := m[1]
-		if translatedFuncs[name] || leanDefined[name] || goBuiltins[name] {
+		if (translatedFuncs[name] && !(sp.AutoOwn && autoElsewhere(name))) || leanDefined[name] || goBuiltins[name] {
 			continue
 		}
 		hfd, hfile := g.packageFunc(sp.File, name)
@@ -195,6 +215,7 @@ func (g *genCtx) autoHelpers(sp *FuncSpec, src string, depth int) string {
 			continue
 		}
 		translatedFuncs[name] = true
+		autoNS[name] = append(autoNS[name], curNS)
 		out.WriteString(g.autoHelpers(&hsp, hsrc, depth+1))
 		out.WriteString(hsrc + "\n")
 	}
